@@ -443,6 +443,9 @@ class VectorContainer:
             index: Union[Hashable, slice]
             name, index = key
 
+            if name not in self.__dict__['index']:
+                raise KeyError(f"'{name}' not recognised as a variable name")
+
             # Modify the relevant subset
             if isinstance(index, slice):
                 start_location, stop_location, step = self._resolve_period_slice(index)
@@ -450,6 +453,17 @@ class VectorContainer:
                 return
 
             location = self._locate_period_in_span(index)
+
+            if (
+                not isinstance(location, slice)
+                and isinstance(value, Sequence)
+                and not isinstance(value, str)
+            ):
+                raise DimensionError(
+                    f"Invalid assignment for '{name}' in period '{index}': "
+                    f"must be a single value"
+                )
+
             self.__dict__['_' + name][location] = value
             return
 
